@@ -1,0 +1,7 @@
+//go:build !verif
+
+package lexer
+
+func verifLexIter(_ *Lexer) {}
+
+func verifTLNext(_ *TLexer) {}
